@@ -8,19 +8,21 @@ import (
 
 	"pgregory.net/rapid"
 	"verif/hx"
+	"verif/model"
 )
 
 // several input files of one format: every file's content must be in the output (or the run must fail), in
 // sequence mode and in eval-all mode, with -0 as well; a malformed later file must make the run fail.
 
 type MFCase struct {
-	Format string     `json:"format"`
-	Files  [][]string `json:"files"` // per file: alternating unique key / value tokens (a flat map)
-	Mode   string     `json:"mode"`  // "", "ea"
-	Out    string     `json:"out"`
-	Nul    bool       `json:"nul"`
-	BadAt  int        `json:"bad_at"`        // index of a file replaced by malformed text, -1 for none
-	Cut    int        `json:"cut,omitempty"` // > 0: the malformed file is the well-formed text cut off after that many per mille of its bytes
+	Format    string     `json:"format"`
+	Files     [][]string `json:"files"` // per file: alternating unique key / value tokens (a flat map)
+	Mode      string     `json:"mode"`  // "", "ea"
+	Out       string     `json:"out"`
+	Nul       bool       `json:"nul"`
+	BadAt     int        `json:"bad_at"`               // index of a file replaced by malformed text, -1 for none
+	EmptyLast bool       `json:"empty_last,omitempty"` // an empty file (no bytes) is given after the others
+	Cut       int        `json:"cut,omitempty"`        // > 0: the malformed file is the well-formed text cut off after that many per mille of its bytes
 }
 
 var mfFormats = []string{"yaml", "json", "props", "toml", "lua", "xml", "csv", "tsv"}
@@ -36,6 +38,7 @@ func genMF(t *rapid.T) MFCase {
 		}
 		c.Files = append(c.Files, kv)
 	}
+	c.EmptyLast = rapid.IntRange(0, 3).Draw(t, "emptylast") == 0
 	if rapid.IntRange(0, 3).Draw(t, "bad") == 0 {
 		c.BadAt = rapid.IntRange(1, len(c.Files)-1).Draw(t, "badat")
 		if rapid.Bool().Draw(t, "truncated") {
@@ -124,6 +127,12 @@ func checkMF(c MFCase) hx.Verdict {
 		_ = os.WriteFile(p, []byte(txt), 0o644)
 		files = append(files, p)
 	}
+	if c.EmptyLast && bad < 0 && (c.Format == "yaml" || c.Format == "json") {
+		// an empty file holds no document: it adds no result of its own
+		p := filepath.Join(dir, fmt.Sprintf("f%d.%s", len(c.Files), c.Format))
+		_ = os.WriteFile(p, nil, 0o644)
+		files = append(files, p)
+	}
 	args := []string{}
 	if c.Mode != "" {
 		args = append(args, c.Mode)
@@ -156,6 +165,12 @@ func checkMF(c MFCase) hx.Verdict {
 			if !strings.Contains(r.Stdout, tok) {
 				return hx.Bad("", "exit 0 but %q from input file %d of %d is not in the output: args=%v output=%q", tok, i, len(files), args, clip(r.Stdout))
 			}
+		}
+	}
+	if c.Out == "json" && !c.Nul {
+		// as many results as there are files with content (each holds one document)
+		if vs, err := model.ParseJSONStream(r.Stdout); err == nil && len(vs) != len(c.Files) {
+			return hx.Bad("", "%d files with one document each give %d results: args=%v output=%q", len(c.Files), len(vs), args, clip(r.Stdout))
 		}
 	}
 	if c.Nul && !strings.Contains(r.Stdout, "\x00") {
